@@ -421,8 +421,10 @@ func streamC09plan(h *H) {
 // spend its back-off budget on an unavailable backend.
 type c09PermBackend struct{ *RecBackend }
 
+var errFault = errors.New("verif: injected permanent failure of this backend operation")
+
 func (p *c09PermBackend) IsPermanentError(err error) bool {
-	return errors.Is(err, errCrashed) || p.RecBackend.IsPermanentError(err)
+	return errors.Is(err, errCrashed) || errors.Is(err, errFault) || p.RecBackend.IsPermanentError(err)
 }
 func (p *c09PermBackend) Unwrap() backend.Backend { return p.RecBackend }
 
@@ -661,6 +663,108 @@ func (x *c09Hist) dropPack() {
 	} else {
 		x.label("dropped-unused-pack")
 	}
+}
+
+// dropUnusedPacks removes every pack file that holds no used blob (the index keeps naming them).
+func (x *c09Hist) dropUnusedPacks() int {
+	repo, used, err := c09Load(x.be)
+	if err != nil {
+		return 0
+	}
+	isUsed := map[restic.BlobHandle]bool{}
+	for _, u := range used {
+		isUsed[u] = true
+	}
+	hasUsed := map[restic.ID]bool{}
+	indexed := map[restic.ID]bool{}
+	for _, e := range repository.VerifC09ListBlobs(repo) {
+		indexed[e.Pack] = true
+		if isUsed[restic.BlobHandle{Type: e.Type, ID: e.ID}] {
+			hasUsed[e.Pack] = true
+		}
+	}
+	n := 0
+	for p := range indexed {
+		if !hasUsed[p] {
+			if x.be.Remove(context.Background(), backend.Handle{Type: backend.PackFile, Name: p.String()}) == nil {
+				n++
+			}
+		}
+	}
+	if n > 0 {
+		x.label("dropped-unused-pack")
+	}
+	return n
+}
+
+func (x *c09Hist) plainBackup() {
+	NewCLI(x.be).MustRun("backup", "--host", "h", x.src)
+}
+
+// c09DirectedKinds: histories in which prune has exactly one kind of work to do (each phase of
+// Execute is guarded by its own condition, so each must also be exercised alone).
+var c09DirectedKinds = []string{"only-missing-unneeded-packs", "only-unindexed-packs", "only-unused-packs", "only-partly-used-packs", "nothing-to-do", "pruned-twice"}
+
+func c09DirectedHistory(h *H, kind string) *c09Hist {
+	x := c09NewHist(h)
+	x.label("directed:" + kind)
+	x.plainBackup()
+	addSome := func() {
+		for i := 0; i < 2+h.Intn(3); i++ {
+			x.addFile()
+		}
+	}
+	switch kind {
+	case "only-missing-unneeded-packs":
+		// a later snapshot is forgotten, its packs (holding nothing else) get lost; everything else is clean
+		addSome()
+		x.plainBackup()
+		ids := c09Snapshots(x.be)
+		first := c09FirstSnapshot(x.be)
+		for _, id := range ids {
+			if id != first {
+				NewCLI(x.be).MustRun("forget", id)
+			}
+		}
+		x.dropUnusedPacks()
+	case "only-unindexed-packs":
+		x.interruptedBackup()
+	case "only-unused-packs":
+		addSome()
+		x.plainBackup()
+		first := c09FirstSnapshot(x.be)
+		for _, id := range c09Snapshots(x.be) {
+			if id != first {
+				NewCLI(x.be).MustRun("forget", id)
+			}
+		}
+	case "only-partly-used-packs":
+		fl := x.files()
+		_ = os.Remove(fl[h.Intn(len(fl))])
+		x.plainBackup()
+		NewCLI(x.be).MustRun("forget", c09FirstSnapshot(x.be))
+	case "nothing-to-do":
+	case "pruned-twice":
+		x.mutate()
+		x.plainBackup()
+		NewCLI(x.be).MustRun("forget", c09FirstSnapshot(x.be))
+		NewCLI(x.be).MustRun("prune", "--max-unused", "0")
+	}
+	return x
+}
+
+// c09FirstSnapshot returns the id of the oldest snapshot.
+func c09FirstSnapshot(be backend.Backend) string {
+	r := NewCLI(be).MustRun("snapshots", "--json", "--no-lock")
+	var l []struct {
+		ID   string `json:"id"`
+		Time string `json:"time"`
+	}
+	if err := json.Unmarshal([]byte(r.Stdout), &l); err != nil || len(l) == 0 {
+		panic("no snapshots")
+	}
+	sort.Slice(l, func(i, j int) bool { return l[i].Time < l[j].Time })
+	return l[0].ID
 }
 
 // c09GenHistory builds a repository by a random sequence of operations.
@@ -935,6 +1039,49 @@ func c09CrashCase(h *H, run *c09PruneRun, k int, rerun bool) {
 	h.End()
 }
 
+// c09FaultCase: the (k+1)-th mutating backend operation of the prune run fails permanently (every
+// attempt on that file), all other operations keep working - unlike a crash, prune can go on after
+// the failure. Then real check/dump, optionally prune re-run.
+func c09FaultCase(h *H, run *c09PruneRun, k int, rerun bool) {
+	be := LoadBackend(run.st0)
+	rec := NewRecBackend(be)
+	tgt, tgtOp, tgtType := "", "", ""
+	rec.FailOp = func(op string, hd backend.Handle, nth int) error {
+		if op != "save" && op != "remove" {
+			return nil
+		}
+		key := op + "/" + hd.Type.String() + "/" + hd.Name
+		if tgt == "" && nth == k+1 {
+			tgt, tgtOp, tgtType = key, op, hd.Type.String()
+		}
+		if key == tgt {
+			return errFault
+		}
+		return nil
+	}
+	r := NewCLI(&c09PermBackend{rec}).Run(run.o.cliArgs()...)
+	done := rec.Mutations()
+	NewCLI(be).Run("unlock", "--remove-all")
+	h.Case("fault")
+	h.Rec("labels", append([]string{"x"}, run.labels...)...)
+	run.o.rec(h, 0, 0)
+	h.Rec("cut", Itoa(k), Itoa(done), B(r.Err != nil), B(tgt != ""))
+	h.Rec("fault", tgtOp, tgtType)
+	h.Rec("pre", B(run.ck0))
+	ckOK, bad, det := c09Verify(be, run.snaps, run.want)
+	h.Rec("verify", B(ckOK), Itoa(bad), Itoa(len(run.snaps)), det)
+	if rerun {
+		r2 := NewCLI(be).Run(c09Opts{MaxRepack: ^uint64(0), MaxUnused: "0", Version: 2}.cliArgs()...)
+		ckOK, bad, det = c09Verify(be, run.snaps, run.want)
+		res := "ok"
+		if r2.Err != nil {
+			res = "err:" + strings.ReplaceAll(lastLines(r2.Err.Error(), 1), " ", "_")
+		}
+		h.Rec("rerun", res, B(ckOK), Itoa(bad), det)
+	}
+	h.End()
+}
+
 func c09OptionSets(h *H, n int) []c09Opts {
 	base := []c09Opts{
 		{MaxRepack: ^uint64(0), MaxUnused: "0", Version: 2},
@@ -984,14 +1131,21 @@ func c09Prepare(x *c09Hist) (*c09PruneRun, bool) {
 }
 
 func streamC09(h *H) {
-	nh := h.N(4, 32)
+	nh := h.N(8, 32)
 	nopt := 3
 	if h.Thorough() {
 		nopt = 5
 	}
 	for i := 0; i < nh; i++ {
 		var x *c09Hist
-		if panicked, msg := Protect(func() { x = c09GenHistory(h) }); panicked {
+		if panicked, msg := Protect(func() {
+			if i == 0 && h.Shard == 0 {
+				// one directed history per run (prune has exactly one kind of work), kind rotates with the seed
+				x = c09DirectedHistory(h, c09DirectedKinds[int(h.Seed%int64(len(c09DirectedKinds))+int64(len(c09DirectedKinds)))%len(c09DirectedKinds)])
+			} else {
+				x = c09GenHistory(h)
+			}
+		}); panicked {
 			h.Case("skip")
 			h.Rec("why", "history-generation-failed", HexS(msg[:min(len(msg), 200)]))
 			h.End()
@@ -1018,6 +1172,10 @@ func streamC09(h *H) {
 			for k := 0; k < m; k++ {
 				c09CrashCase(h, run, k, h.Thorough() || k%3 == h.Intn(3))
 			}
+			// single failing operations (not crashes); lock operations are not interesting targets
+			for k := 1; k < m-1; k++ {
+				c09FaultCase(h, run, k, h.Thorough() || k%3 == 0)
+			}
 		}
 		x.Close()
 	}
@@ -1030,10 +1188,22 @@ func streamC10(h *H) {
 		c09SynthCase(h, 1000000+i, true)
 	}
 	// (b) completed full prunes of real histories: after-state and reported statistics
-	nh := h.N(8, 120)
+	nh := h.N(12, 120)
 	for i := 0; i < nh; i++ {
 		var x *c09Hist
-		if panicked, _ := Protect(func() { x = c09GenHistory(h) }); panicked {
+		// the first histories of every shard are directed ones (prune has exactly one kind of work);
+		// "only-missing-unneeded-packs" is in every run
+		gi := i*h.NSh + h.Shard
+		if panicked, msg := Protect(func() {
+			if gi < len(c09DirectedKinds) {
+				x = c09DirectedHistory(h, c09DirectedKinds[gi])
+			} else {
+				x = c09GenHistory(h)
+			}
+		}); panicked {
+			h.Case("skip")
+			h.Rec("why", "history-generation-failed", HexS(msg[:min(len(msg), 200)]))
+			h.End()
 			continue
 		}
 		run, ok := c09Prepare(x)
